@@ -93,6 +93,11 @@ D_CatchesUp_ ==
   (IsStep /\ l > t0 + 1 /\ cur.op = "SyncWait" /\ Log[l - 1].op = "SyncWait" /\ cur.faultsLeft = 0 /\ Log[l - 1].faultsLeft = 0
           /\ Log[l - 2].faultsLeft = 0 /\ cur.res # "skip") => cur.ack
 
+(* C14: with the daemon running (its syncs, checkpoints, snapshots, compactions, close) the application-visible content is  *)
+(* what the same application history yields without litestream (judged while no application operation was refused as busy) *)
+D_SameAsControlRun_ == (IsStep /\ cur.ctl # -1) => cur.app = cur.ctl
+D_BookkeepingOnly_ == (IsStep /\ cur.lockN # -1) => cur.lockN = 0
+
 (* C12: Close returns and leaves nothing behind *)
 D_StopReturns_ == (IsStep /\ cur.op = "DaemonStop") => cur.res # "hang"
 D_NoLeakAfterStop_ == (IsStep /\ stopped) => (~cur.hasRead /\ ~cur.handles /\ cur.execFree /\ cur.chkFree)
@@ -108,6 +113,8 @@ D_Level0OneRun == V("D_Level0OneRun", D_Level0OneRun_)
 D_LevelsContiguous == V("D_LevelsContiguous", D_LevelsContiguous_)
 D_SnapshotKept == V("D_SnapshotKept", D_SnapshotKept_)
 D_CatchesUp == V("D_CatchesUp", D_CatchesUp_)
+D_SameAsControlRun == V("D_SameAsControlRun", D_SameAsControlRun_)
+D_BookkeepingOnly == V("D_BookkeepingOnly", D_BookkeepingOnly_)
 D_StopReturns == V("D_StopReturns", D_StopReturns_)
 D_NoLeakAfterStop == V("D_NoLeakAfterStop", D_NoLeakAfterStop_)
 D_SourceNotPinned == V("D_SourceNotPinned", D_SourceNotPinned_)
